@@ -418,8 +418,16 @@ func ExtractRule(ctx *Context, fact Map, required bool) (Map, error) {
 			expires, have := fact["expires"]
 			Log(DEBUG, ctx, "ExtractRule", "expires", expires)
 			if have {
-				// ToDo: Probably shouldn't modify given fact this way.
-				vv["expires"] = expires
+				// The given fact is usually the stored one, which
+				// concurrent readers share: give the expiration to
+				// a copy of the rule's body instead of writing it
+				// into the stored body.
+				body := make(map[string]interface{}, len(vv)+1)
+				for k, v := range vv {
+					body[k] = v
+				}
+				body["expires"] = expires
+				return body, nil
 			}
 			return vv, nil
 		default:
